@@ -29,8 +29,7 @@ fn emit(ctx: &mut Ctx, supply: Value) {
     let h = 3 * p + 2;
     let dm = (4 * q + 3).min(80);
     let inp = json!({ "supply": supply, "H": h, "Dm": dm });
-    let out = guarded(&inp, ctx.watchdog_ms, tables);
-    ctx.sink.event("sbf", inp, out);
+    ctx.call("sbf", inp, tables);
 }
 
 pub fn run(ctx: &mut Ctx) {
